@@ -268,6 +268,12 @@ func c16One(x *ctx, c fmtCase) bool {
 			aux[fmt.Sprintf("inc/mid-%s-%s.%s", m, l, m)] = mid
 		}
 	}
+	debugDoc := false
+	for _, st := range c.Sets {
+		if st.Path == "/debug" && st.Shape == "true" {
+			debugDoc = true
+		}
+	}
 	useBin := os.Getenv("VERIF_TASKCTL") != "" && (*common_Tier() == "thorough" || len(c.Sets) == 0 || x.idx%5 == 0)
 	for _, e := range emitters {
 		b, err := e.emit(tree)
@@ -319,6 +325,19 @@ func c16One(x *ctx, c fmtCase) bool {
 				out := br.out
 				if cmd[0] == "graph" && br.code == 0 {
 					out = canonDot(out)
+				} else if cmd[0] == "--output" {
+					// a run: stages of a pipeline may write at the same time and a line and its terminator are
+					// separate writes, so two runs of the SAME file differ in how lines interleave (seen in the
+					// thorough tier under load: an empty line more or less). Compared: exit status, the trace
+					// file and the multiset of bytes written - invariant under every interleaving of the writes.
+					// With debug logging switched on by the document the number of log lines depends on timing:
+					// exit status and trace only.
+					bs := []byte(normalizeOut(out, dir))
+					sort.Slice(bs, func(i, j int) bool { return bs[i] < bs[j] })
+					out = string(bs)
+					if debugDoc {
+						out = ""
+					}
 				} else if cmd[0] != "show" {
 					ls := strings.Split(out, "\n")
 					sort.Strings(ls) // map iteration order / summary order are not part of the comparison
